@@ -293,6 +293,13 @@ func (m *MultiRun) Execute() {
 		return ok
 	}
 	for m.Actions-start < m.Budget {
+		if m.W.Runaway != "" {
+			m.StopReason = "runaway object growth: " + m.W.Runaway
+			for _, r := range m.Runs {
+				r.StopReason = m.StopReason
+			}
+			return
+		}
 		release()
 		if !m.step() {
 			if !allReleased() {
